@@ -42,7 +42,7 @@ def run(ck: Check):
                "{0.25, 1, 4}, thresholds {0.5, 0.2, 0.9}: soft sample vs the model (float64 mirror + interval lemmas), hard sample vs the "
                "predicted event, temperature independence at threshold 1/2; same seed twice; fixed-seed frequency of the hard sample "
                "(1e5 quick / 1e6 thorough draws per cell, 6 sigma); tau <= 0; dense and conv layers in both Gumbel modes (range, single "
-               "gate). Non-trivial: temperature != 1. Distinct = canonical JSON of the cell.")
+               "gate). Non-trivial: temperature != 1. Distinct = canonical JSON of the cell. Also: hard samples of the primitive and of dense / conv layers in bfloat16 / float16 (one gate per row; Walsh node frequencies for forms +30 / -6 and temperature 1e39), thresholds at and beyond the ends of (0,1), sampling mode switched on a live object.")
     ck.translate("Guards", t_guards.gen_guards)
     ck.translate("Ops", t_ops.gen_ops)
     ck.prove("Props/C17", THEOREMS)
